@@ -11,7 +11,8 @@ from lib.terms import g_str
 
 ID = 'C10'
 IMPORTS = ['Lang.Front']
-THEOREMS = ['C10_lex_exact']
+THEOREMS = ['C10_rule_scan_exact', 'C10_rule_scan_none', 'C10_lex_maximal_munch', 'C10_lex_exact', 'C10_lex_error_spec',
+            'C10_lex_complete', 'C10_parse_yield', 'C10_ast_clause_count', 'C10_front_whole_input']
 RULE = ('source texts: (a) sentences derived at random from the grammar prolog.g4 itself (every alternative, including '
         '=(a,b), unary operators, name/arity, numeral-named compounds, foo(), [a,|T], nested parentheses, directives), '
         '(b) programs printed from random ASTs, both rendered with random spacing, line breaks and % comments, and (c) every '
@@ -105,8 +106,8 @@ BINOPS = ['=', '\\=', '==', '\\==', '<', '>', '=<', '>=']
 def g_atom(rng, callable_bias=False):
     r = rng.random()
     if r < 0.7: return rng.choice(ATOMS)
-    if r < 0.85: return rng.choice(STRINGS)
-    if callable_bias and r < 0.97: return rng.choice(ATOMS)
+    if r < 0.88: return rng.choice(STRINGS)
+    if r < 0.98: return rng.choice(ATOMS)
     return rng.choice(NUMERALS)
 
 def g_termlist(rng, depth, maxn=3):
@@ -134,7 +135,7 @@ def g_term(rng, depth, callable_bias=False):
         return g_term(rng, depth)
     if r < 0.18: return [g_atom(rng)]
     if r < 0.40: return [g_atom(rng), '('] + g_termlist(rng, depth - 1) + [')']
-    if r < 0.43: return [rng.choice(ATOMS), '/', rng.choice(NUMERALS)]
+    if r < 0.41: return [rng.choice(ATOMS), '/', rng.choice(NUMERALS)]
     if r < 0.58: return [rng.choice(VARIABLES)]
     if r < 0.64: return [rng.choice(UNOPS)] + g_term(rng, depth - 1)
     if r < 0.72: return g_term(rng, depth - 1) + [rng.choice(BINOPS)] + g_term(rng, depth - 1)
@@ -290,7 +291,12 @@ def corruptions(rng, clauses, n):
             i = rng.randrange(len(t) + 1); t.insert(i, '/* c */')
         if src is None:
             src = ' '.join(t)
-        out.append({'src': src, 'kind': k, 'base_clauses': len(clauses)})
+        case = {'src': src, 'kind': k, 'base_clauses': len(clauses)}
+        sure = k in ('trailing', 'unterminated-end', 'comment-eof', 'no-final-dot') or \
+            (k == 'leading' and not src.startswith(('garbage', '=', '(')))   # `garbage ((c)) :- ...` can be a clause
+        if src != base and (sure or tokenize(src) is None):
+            case['must_reject'] = True       # not a sentence by construction (or not even lexable)
+        out.append(case)
     return out
 
 # ------------------------------------------------------------------ cases
@@ -401,6 +407,8 @@ def compare(case, io, mo):
     if not isinstance(io, dict):
         return None
     mlex, mfront = mo
+    if case['kind'] in ('grammar', 'valid-ast', 'valid-ast-spaced') and mfront[0] in ('lex-error', 'parse-error'):
+        return 'tie: the model refuses a sentence derived from the grammar (%s)' % mfront[0]
     # token streams
     if mlex[0] == 'lex-error':
         if io['tokens'][0] == 'ok':
@@ -452,6 +460,8 @@ def oracle(case, io):
             return 'a program printed from an AST is read back as a different AST'
         if not _accepted(io) and not (io['compile'][1] == 'CompilerError' and io['compile'][2]):
             return 'a program printed from an AST does not compile (%s)' % io['compile'][1]
+    if case['kind'] == 'grammar' and (io['tokens'][0] != 'ok' or io['ast'] == ['raised', 'CompilerSyntaxError']):
+        return 'a sentence derived from the grammar is reported as a syntax error'
     if case.get('must_reject') and _accepted(io):
         return 'a text that is not a sentence of the grammar by construction is compiled'
     return None
@@ -474,21 +484,21 @@ def shrink(case):
         n = len(src)
         for a, b in ((0, n // 2), (n // 2, n), (0, n // 4), (n - n // 4, n)):
             if b > a:
-                c = dict(case); c['src'] = src[:a] + src[b:]; c.pop('expect_ast', None)
+                c = dict(case); c['src'] = src[:a] + src[b:]; c.pop('expect_ast', None); c.pop('must_reject', None)
                 yield c
         for i in range(min(n, 40)):
-            c = dict(case); c['src'] = src[:i] + src[i + 1:]; c.pop('expect_ast', None)
+            c = dict(case); c['src'] = src[:i] + src[i + 1:]; c.pop('expect_ast', None); c.pop('must_reject', None)
             yield c
         return
     # remove whole clauses (up to a full stop), then single tokens
     cuts = [i for i, t in enumerate(toks) if t == '.']
     start = 0
     for e in cuts:
-        c = dict(case); c['src'] = ''.join(toks[:start] + toks[e + 1:]); c.pop('expect_ast', None)
+        c = dict(case); c['src'] = ''.join(toks[:start] + toks[e + 1:]); c.pop('expect_ast', None); c.pop('must_reject', None)
         yield c
         start = e + 1
     for i in range(min(len(toks), 50)):
-        c = dict(case); c['src'] = ''.join(toks[:i] + toks[i + 1:]); c.pop('expect_ast', None)
+        c = dict(case); c['src'] = ''.join(toks[:i] + toks[i + 1:]); c.pop('expect_ast', None); c.pop('must_reject', None)
         yield c
 
 def distribution(cases, obs):
